@@ -95,7 +95,8 @@ def _order_symbol_mapping(
 ) -> OrderedDict[sp.Symbol, sp.Expr]:
     return collections.OrderedDict([
         (symbol, mapping[symbol])
-        for symbol in sorted(mapping, key=lambda s: natural_sorting(s.name))
+        # tie-break on the name: natural_sorting() maps e.g. m_02 and m_2 to the same key
+        for symbol in sorted(mapping, key=lambda s: (natural_sorting(s.name), s.name))
     ])
 
 
